@@ -228,6 +228,17 @@ def no_inplace_update_of_borrowed_arrays(qualname):
     out = []
     borrowed = {}  # container name -> list of (line, source container)
     fresh_calls = ("copy", "zeros", "ones", "array", "empty", "full", "zeros_like", "ones_like", "dcp", "deepcopy")
+    # innermost enclosing for-loop of every statement
+    loop_of = {}
+
+    def _mark(node, loop):
+        for child in ast.iter_child_nodes(node):
+            inner = child if isinstance(child, ast.For) else loop
+            if isinstance(child, ast.stmt) and loop is not None:
+                loop_of[child] = loop
+            _mark(child, inner)
+
+    _mark(fi.node, None)
     # local names that are (on some path) only another name for an array held by an object: `vals = comp.vals`
     alias = {}
     for s in ast.walk(fi.node):
@@ -244,6 +255,10 @@ def no_inplace_update_of_borrowed_arrays(qualname):
                 borrowed.setdefault(s.targets[0].value.id, []).append((s.lineno, src))
             elif isinstance(v, ast.Name) and v.id in alias:
                 borrowed.setdefault(s.targets[0].value.id, []).append((s.lineno, alias[v.id][0][1]))
+            elif isinstance(v, ast.Name) and s in loop_of and not any(isinstance(x, ast.Name) and x.id == v.id and isinstance(x.ctx, ast.Store) for b in loop_of[s].body for x in ast.walk(b)):
+                # a local array handed over inside a loop must be built inside that loop: one bound outside is the SAME array in
+                # every iteration, so the container element aliases a scratch array that later iterations overwrite
+                borrowed.setdefault(s.targets[0].value.id, []).append((s.lineno, "%s (bound outside the loop at line %d)" % (v.id, loop_of[s].lineno)))
             elif isinstance(v, ast.Attribute):
                 borrowed.setdefault(s.targets[0].value.id, []).append((s.lineno, ast.unparse(v)))
     n = 0
